@@ -177,6 +177,12 @@ def generate(prop, rng, tier):
     elif struct == 'nested':
         cfg['n'] = rng.randint(1, 2)
         cfg['m'] = rng.randint(1, 2)
+    if struct != 'leaf' and rng.random() < 0.3:
+        # exponent / weighting of the product space itself: part of the space
+        # every result has to belong to
+        cfg['pkw'] = rng.choice([{'exponent': 1.0}, {'exponent': float('inf')},
+                                 {'exponent': 1.5}, {'weighting': 0.5},
+                                 {'weighting': 'array'}])
     big = thresholds[1] >= 50000 and regime in ('Tm', 'blas')
     npool = rng.randint(3, 5)
     cfg['layouts'] = [rng.choice(['C', 'C', 'F', 'strided', 'C'])
@@ -321,16 +327,28 @@ class Pool(object):
             raise Reject('rejected_config: ' + str(e)[:80])
         st = cfg['struct']
         self.base = None
-        if st == 'leaf':
-            self.S = self.leafspace
-        elif st == 'power':
-            self.S = o.ProductSpace(self.leafspace, cfg['n'])
-            self.base = self.leafspace
-        elif st == 'hetero':
-            self.S = o.ProductSpace(self.leafspace, leaf2)
-        else:
-            inner = o.ProductSpace(self.leafspace, cfg['m'])
-            self.S = o.ProductSpace(inner, cfg['n'])
+
+        def pkw(n):
+            kw = dict(cfg.get('pkw') or {})
+            if kw.get('weighting') == 'array':
+                kw['weighting'] = [0.5 + 0.75 * j for j in range(n)]
+            return kw
+
+        try:
+            if st == 'leaf':
+                self.S = self.leafspace
+            elif st == 'power':
+                self.S = o.ProductSpace(self.leafspace, cfg['n'],
+                                        **pkw(cfg['n']))
+                self.base = self.leafspace
+            elif st == 'hetero':
+                self.S = o.ProductSpace(self.leafspace, leaf2, **pkw(2))
+            else:
+                inner = o.ProductSpace(self.leafspace, cfg['m'],
+                                       **pkw(cfg['m']))
+                self.S = o.ProductSpace(inner, cfg['n'], **pkw(cfg['n']))
+        except (ValueError, TypeError) as e:
+            raise Reject('rejected_config: ' + str(e)[:80])
         g = np_rng('pool', plan['xseed'])
         self._lay = iter(cfg['layouts'] * 8)
         self.objs = [self._make(self.S, g) for _ in range(plan['npool'])]
